@@ -285,7 +285,7 @@ where
     let ghost xs = vals(a@); let ghost n = a@.len() as int; let ghost order0 = order;
 //@at after_call sum 0
     proof { lemma_psum_is_ppsum1(xs, n); }
-//@loop 0 iter=it
+//@loop 0 iter=it halfopen=1
         invariant
             real_model::<A>(), real_from_usize::<A>(), xs == vals(a@), n == a@.len(), n > 0, n_elements.val() == n as real,
             order == order0 as i32, 0 <= order <= 65535, order >= 1 ==> moments@.len() == 2 + it.index@, order < 1 ==> moments@.len() == 1,
@@ -378,7 +378,7 @@ impl<A, D: Dimension> ArrayN<A, D> {
                 }
 //@at after_let correction_term 0
                 proof { assert(correction_term.val() == 0real); }
-//@loop 0 iter=it
+//@loop 0 iter=it halfopen=1
                     invariant
                         real_model::<A>(), real_from_usize::<A>(), xs == vals(self@), cnt == self@.len(), cnt > 0, mu == mean_def(xs),
                         n == order, n < u16::MAX, correction_term.val() == 0real,
